@@ -37,13 +37,13 @@ pub fn lanes_of(id: &str) -> Vec<(&'static str, LaneFn)> {
         "C07" => vec![("trees", c07::trees), ("integers", c07::integers), ("nonminimal", c07::nonminimal), ("typed_trees", c07::typed_trees)],
         "C08" => vec![("generated", c08::generated), ("exhaustive", c08::exhaustive), ("mutated", c08::mutated), ("rejection", c08::rejection_classes)],
         "C09" => vec![("exhaustive_short", c09::exhaustive_short), ("exhaustive_meta", c09::exhaustive_meta), ("random", c09::random)],
-        "C10" => vec![("streams", c10::streams), ("search_collect", c10::search_collect), ("sync_streams", c10::sync_streams), ("paged_early_finish", c10::paged_early_finish), ("dropped_neighbour", c10::dropped_neighbour), ("lagging_reader", c10::lagging_reader)],
+        "C10" => vec![("streams", c10::streams), ("search_collect", c10::search_collect), ("sync_streams", c10::sync_streams), ("paged_early_finish", c10::paged_early_finish), ("dropped_neighbour", c10::dropped_neighbour), ("lagging_reader", c10::lagging_reader), ("paged_final_result", c10::paged_final_result)],
         "C11" => vec![("decoder", c11::decoder), ("driver", c11::driver), ("stack", c11::stack), ("starttls_garbage", c11::starttls_garbage), ("idle_connection", c11::idle_connection)],
         "C12" => vec![("timeouts", c12::timeouts), ("stalled_driver", c12::stalled_driver)],
         "C13" => vec![("histories", c13::histories), ("long_histories", c13::long_histories), ("tls_connections", c13::tls_connections), ("given_up_searches", c13::given_up_searches), ("dead_connection", c13::dead_connection)],
-        "C14" => vec![("differential", c14::differential)],
+        "C14" => vec![("differential", c14::differential), ("constructors", c14::constructors)],
         "C15" => vec![("random", c15::random), ("patterns", c15::patterns), ("through_connection", c15::through_connection)],
-        "C16" => vec![("paging", c16::paging)],
+        "C16" => vec![("paging", c16::paging), ("sync_front_end", c16::sync_front_end)],
         "C17" => vec![("matrix", c17::matrix_lane)],
         "C18" => vec![("table", c18::table)],
         "C19" => vec![("requests", c19::requests), ("responses", c19::responses), ("envelope", c19::envelope), ("attached_controls", c19::attached_controls), ("exops_through_connection", c19::exops_through_connection)],
@@ -65,7 +65,7 @@ pub fn run(ctx: &Ctx, id: &str, only: Option<&str>) -> Vec<Value> {
             }
         }
         // lanes that need child processes or real sockets cannot run inside the Miri interpreter
-        if cfg!(miri) && matches!(name, "stack" | "real_transports" | "sync_streams" | "tls_connections" | "starttls_strays" | "starttls_results" | "starttls_garbage") {
+        if cfg!(miri) && matches!(name, "stack" | "real_transports" | "sync_streams" | "tls_connections" | "starttls_strays" | "starttls_results" | "starttls_garbage" | "constructors" | "sync_front_end" | "differential") {
             continue;
         }
         let t = std::time::Instant::now();
@@ -77,7 +77,7 @@ pub fn run(ctx: &Ctx, id: &str, only: Option<&str>) -> Vec<Value> {
             // which may well name the reason - still run and the report still gets written
             // (lanes on real sockets and real threads legitimately sit out wall-clock guards - 8 s, then 40 s alone, per
             // hanging scenario - when the library under test hangs; the in-memory lanes never wait for real time)
-            let real_time = matches!(name, "routing_threads" | "starttls_strays" | "starttls_results" | "real_transports" | "threads" | "sync_streams" | "stack" | "starttls_garbage" | "tls_connections" | "differential" | "matrix" | "table");
+            let real_time = matches!(name, "routing_threads" | "starttls_strays" | "starttls_results" | "real_transports" | "threads" | "sync_streams" | "stack" | "starttls_garbage" | "tls_connections" | "differential" | "sync_front_end" | "constructors" | "matrix" | "table");
             let cap = if ctx.quick() { if real_time { 900 } else { 150 } } else { ctx.lane_cap_s.unwrap_or(600) * 2 + if real_time { 900 } else { 300 } };
             let (txr, rxr) = std::sync::mpsc::channel();
             let c2 = ctx.clone();
